@@ -182,7 +182,7 @@ CROSS_SAMPLE = int(os.environ.get("VERIF_CROSS_SAMPLE", "0"))  # k > 0: keep the
 MAX_PATHS = int(os.environ.get("VERIF_MAX_PATHS", "1500"))
 TASK_TIMEOUT_S = int(os.environ.get("VERIF_TASK_TIMEOUT_S", "400"))  # one path: exploration + all its obligations
 UNIT_BUDGET_S = int(os.environ.get("VERIF_UNIT_BUDGET_S", "900"))  # wall-clock cap of one verify_units call (normal: 1-2 min)
-DEFAULT_BUDGETS = {"default": {"z3": 10, "cvc5": 20, "finite": 1, "kmax": 4}, "special": []}
+DEFAULT_BUDGETS = {"default": {"z3": 20, "cvc5": 20, "finite": 1, "kmax": 4}, "special": []}
 
 
 def verify_units(units, budgets=None, workers=None, verbose=False):
